@@ -70,7 +70,7 @@ def build(ctx):
     return a, b, c
 
 
-UPD_ALGOS = ["smsemoa", "ssmocma", "nsga2", "nsga2eps", "nsga2hv", "mocma", "moead", "rvea"]
+UPD_ALGOS = ["smsemoa", "ssmocma", "nsga2", "nsga2eps", "nsga2hv", "nsga3", "mocma", "moead", "rvea"]
 LATTICE3 = {3: 1, 6: 2, 10: 3, 15: 4}      # mu -> ticks for 3 objectives
 
 
@@ -104,7 +104,7 @@ def gen_upd(r, ctx, maxsteps):
     hvbased = algo in ("smsemoa", "ssmocma", "nsga2hv", "mocma")
     ref = 1 if (hvbased and (m == 3 or r.below(2))) else 0
     if algo == "moead": mu = r.choice([3, 5, 9]) if m == 2 else r.choice([3, 6])
-    elif algo == "rvea": mu = r.range(3, 7) if m == 2 else r.choice([3, 6])
+    elif algo in ("rvea", "nsga3"): mu = r.range(3, 7) if m == 2 else r.choice([3, 6])
     elif algo in ("mocma", "ssmocma"): mu = r.range(1, 7)
     else: mu = r.range(3, 7)
     T = r.range(1, min(mu, 4)) if algo == "moead" else 0
